@@ -498,8 +498,21 @@ impl Process {
         disposition: Disposition,
     ) -> Disposition {
         let old_disposition = self.dispositions.insert(number, disposition);
-        if disposition == Disposition::Ignore {
-            // A pending signal is discarded when it is set to be ignored.
+        // A pending signal is discarded when it is set to be ignored, also when
+        // that is what its default action amounts to (SIGCHLD, SIGCONT, ...).
+        let ignored = match disposition {
+            Disposition::Ignore => true,
+            Disposition::Default => {
+                let name = signal::Name::try_from_raw_virtual(number.as_raw())
+                    .unwrap_or(signal::Name::Sys);
+                matches!(
+                    SignalEffect::of(name),
+                    SignalEffect::None | SignalEffect::Resume
+                )
+            }
+            Disposition::Catch => false,
+        };
+        if ignored {
             self.pending_signals.remove(number).ok();
         }
         old_disposition.unwrap_or_default()
